@@ -34,6 +34,9 @@ class CollectionValue(GenericValue):
         return self._file._value_to_code(self._new_value)
 
     def _get_changes(self) -> Iterator[Change]:
+        if self._new_value is undefined:
+            # the first comparison raised an exception
+            return
 
         if self._ast_node is None:
             elements = [None] * len(self._old_value)
